@@ -126,12 +126,17 @@ enum Fact { Bounds, Len, Placement }
 /// `exclude_known`: skip the masks inside the known-defect region (these harnesses must pass; the unrestricted
 /// ones carry the property as stated and are registered as known findings where the defect makes them fail)
 fn check<const N: usize>(lens: [usize; N], reps: [usize; N], fact: Fact, exclude_known: bool) {
+    check_masks(lens, reps, fact, exclude_known, 0, u32::MAX)
+}
+
+fn check_masks<const N: usize>(lens: [usize; N], reps: [usize; N], fact: Fact, exclude_known: bool, lo: u32, hi: u32) {
     let pay: [u8; MAXC] = kani::any();
     let mut total = 0;
     let mut i = 0;
     while i < N { total += lens[i]; i += 1; }
-    let mut mask: u32 = 0;
-    while mask < (1u32 << total) {
+    let mut mask: u32 = lo;
+    let end = if hi < (1u32 << total) { hi } else { 1u32 << total };
+    while mask < end {
         let (cells, cols4) = mk_cells(lens, mask, &pay);
         let cols = &cols4[..N + 1];
         let (g, h) = expand(&cells, cols, reps);
@@ -175,7 +180,7 @@ fn check<const N: usize>(lens: [usize; N], reps: [usize; N], fact: Fact, exclude
         }
         mask += 1;
     }
-    kani::cover!(mask == (1u32 << total));
+    kani::cover!(mask == end);
 }
 
 macro_rules! h {
@@ -189,3 +194,8 @@ macro_rules! h {
 h!(ods_gr_222_r111_bounds, [2, 2, 2], [1, 1, 1], Fact::Bounds, false);
 h!(ods_gr_222_r111_len, [2, 2, 2], [1, 1, 1], Fact::Len, false);
 h!(ods_gr_222_r111_place, [2, 2, 2], [1, 1, 1], Fact::Placement, false);
+
+#[kani::proof]
+fn ods_gr_probe_one() { check_masks([2, 2, 2], [1, 1, 1], Fact::Bounds, false, 0b100110, 0b100111) }
+#[kani::proof]
+fn ods_gr_probe_four() { check_masks([2, 2, 2], [1, 1, 1], Fact::Bounds, false, 0b100100, 0b101000) }
